@@ -2,4 +2,1320 @@
 
 package main
 
-func tokensMain(args []string) {}
+// C30: session (v1, v2) and bearer tokens with real signatures of all schemes, lifetimes around
+// the current epoch / time, all verbs; single-field, signature and single-byte mutations. The
+// final protobuf message is what the real verification functions get; the facts the model needs
+// are re-derived from that final message by an independent decoder (SDK decoding + SDK
+// signature verification), so a mutated byte shows up in the facts exactly as it is on the wire.
+
+import (
+	"bytes"
+	"context"
+	"crypto/ecdsa"
+	"crypto/elliptic"
+	"crypto/sha256"
+	"encoding/json"
+	"errors"
+	"os"
+	"slices"
+	"sort"
+	"strconv"
+	"time"
+
+	"github.com/google/uuid"
+	"github.com/nspcc-dev/neo-go/pkg/core/block"
+	"github.com/nspcc-dev/neo-go/pkg/core/transaction"
+	"github.com/nspcc-dev/neo-go/pkg/crypto/hash"
+	"github.com/nspcc-dev/neo-go/pkg/crypto/keys"
+	"github.com/nspcc-dev/neo-go/pkg/neorpc/result"
+	"github.com/nspcc-dev/neo-go/pkg/smartcontract/trigger"
+	"github.com/nspcc-dev/neo-go/pkg/util"
+	"github.com/nspcc-dev/neo-go/pkg/vm/stackitem"
+	"github.com/nspcc-dev/neo-go/pkg/vm/vmstate"
+	isessions "github.com/nspcc-dev/neofs-node/internal/sessions"
+	aclsvc "github.com/nspcc-dev/neofs-node/pkg/services/object/acl/v2"
+	"github.com/nspcc-dev/neofs-node/pkg/services/object/common"
+	"github.com/nspcc-dev/neofs-sdk-go/bearer"
+	apistatus "github.com/nspcc-dev/neofs-sdk-go/client/status"
+	"github.com/nspcc-dev/neofs-sdk-go/container"
+	cid "github.com/nspcc-dev/neofs-sdk-go/container/id"
+	cidtest "github.com/nspcc-dev/neofs-sdk-go/container/id/test"
+	neofscrypto "github.com/nspcc-dev/neofs-sdk-go/crypto"
+	neofsecdsa "github.com/nspcc-dev/neofs-sdk-go/crypto/ecdsa"
+	"github.com/nspcc-dev/neofs-sdk-go/eacl"
+	"github.com/nspcc-dev/neofs-sdk-go/netmap"
+	oid "github.com/nspcc-dev/neofs-sdk-go/object/id"
+	oidtest "github.com/nspcc-dev/neofs-sdk-go/object/id/test"
+	protoacl "github.com/nspcc-dev/neofs-sdk-go/proto/acl"
+	protoobject "github.com/nspcc-dev/neofs-sdk-go/proto/object"
+	"github.com/nspcc-dev/neofs-sdk-go/proto/refs"
+	protosession "github.com/nspcc-dev/neofs-sdk-go/proto/session"
+	"github.com/nspcc-dev/neofs-sdk-go/session"
+	sessionv2 "github.com/nspcc-dev/neofs-sdk-go/session/v2"
+	"github.com/nspcc-dev/neofs-sdk-go/user"
+	"github.com/nspcc-dev/neofs-sdk-go/version"
+	"go.uber.org/zap"
+	"google.golang.org/protobuf/proto"
+)
+
+// ---- facts ------------------------------------------------------------------------------
+
+type lifeF struct {
+	Iat uint64 `json:"iat"`
+	Nbf uint64 `json:"nbf"`
+	Exp uint64 `json:"exp"`
+}
+type sigF struct {
+	Scheme uint32 `json:"scheme"`
+	Key    int    `json:"key"`
+}
+type tok1F struct {
+	Issuer  int     `json:"issuer"`
+	Life    lifeF   `json:"life"`
+	AuthKey int     `json:"authkey"`
+	Verb    uint32  `json:"verb"`
+	Cnr     int     `json:"cnr"`
+	Objs    []int   `json:"objs"`
+	Sig     *sigF   `json:"sig"`
+}
+type btokF struct {
+	Issuer int   `json:"issuer"`
+	Life   lifeF `json:"life"`
+	Cid    int   `json:"cid"`
+	User   int   `json:"user"`
+	Sig    *sigF `json:"sig"`
+}
+type subjF2 struct {
+	K string `json:"k"` // u | n | z
+	I int    `json:"i"`
+}
+type ctxF struct {
+	Cnr   int      `json:"cnr"`
+	Verbs []uint32 `json:"verbs"`
+}
+type tok2F struct {
+	Version uint32   `json:"version"`
+	AppLen  int      `json:"applen"`
+	Issuer  int      `json:"issuer"`
+	Subjs   []subjF2 `json:"subjs"`
+	Life    lifeF    `json:"life"`
+	Ctxs    []ctxF   `json:"ctxs"`
+	Final   bool     `json:"final"`
+	Sig     *sigF    `json:"sig"`
+}
+type tokCase struct {
+	Kind    string   `json:"kind"` // v1 | bearer | v2 | hist
+	KU      [][2]int `json:"ku"`
+	NNS     [][2]int `json:"nns"`
+	Epoch   uint64   `json:"epoch"`
+	Now     uint64   `json:"now"`
+	WF      bool     `json:"wf"`
+	V1      *tok1F   `json:"v1,omitempty"`
+	B       *btokF   `json:"b,omitempty"`
+	V2      []tok2F  `json:"v2,omitempty"`
+	SigOK   []bool   `json:"sigok"`
+	N3OK    []bool   `json:"n3ok"`
+	ReqVerb uint32   `json:"reqverb"`
+	ReqCnr  int      `json:"reqcnr"`
+	ReqObj  int      `json:"reqobj"`
+	Owner   int      `json:"owner"`
+	Sender  int      `json:"sender"`
+	Mut     string   `json:"mut"`  // mutation applied after signing ("" = none)
+	Base    bool     `json:"base"` // the token before the mutation was accepted for the same request
+	Res     int      `json:"res"`  // 0 accept 1 expired 2 reject
+	// hist
+	Events []histEv `json:"events,omitempty"`
+	Out    []int    `json:"out,omitempty"`
+}
+type histEv struct {
+	Tick  bool   `json:"tick"`
+	Epoch uint64 `json:"epoch"`
+	Reset bool   `json:"reset"`
+	ID    int    `json:"id"`
+	WF    bool   `json:"wf"`
+	V1    *tok1F `json:"v1,omitempty"`
+	SigOK bool   `json:"sigok"`
+	ReqVerb uint32 `json:"reqverb"`
+	ReqCnr  int    `json:"reqcnr"`
+	ReqObj  int    `json:"reqobj"`
+}
+
+// ---- environment ---------------------------------------------------------------------------
+
+type tworld struct {
+	epoch uint64
+	n3ok  bool            // register the N3 witnesses generated next as valid
+	n3reg map[string]bool // witnesses the fake chain accepts: account | signed-data hash | invocation+verification script
+	nns   map[string][]util.Uint160
+	cnrs  map[cid.ID]container.Container
+}
+
+type tChain struct{ w *tworld }
+
+// The fake chain is a witness oracle: a witness verifies exactly for the (account, signed data)
+// it was registered for.
+func n3Key(acc util.Uint160, h util.Uint256, script []byte) string {
+	return string(acc.BytesBE()) + string(h.BytesBE()) + string(script)
+}
+func (c tChain) InvokeContainedScript(tx *transaction.Transaction, _ *block.Header, _ *trigger.Type, _ *bool) (*result.Invoke, error) {
+	ok := len(tx.Signers) == 1 && c.w.n3reg[n3Key(tx.Signers[0].Account, tx.Hash(), tx.Script)]
+	return &result.Invoke{State: vmstate.Halt.String(), Stack: []stackitem.Item{stackitem.NewBool(ok)}}, nil
+}
+func (w *tworld) n3Fact(issuer *refs.OwnerID, sg *refs.Signature, body interface {
+	MarshaledSize() int
+	MarshalStable([]byte)
+}) bool {
+	if sg == nil || issuer == nil {
+		return false
+	}
+	var id user.ID
+	if id.FromProtoMessage(issuer) != nil {
+		return false
+	}
+	b := make([]byte, body.MarshaledSize())
+	body.MarshalStable(b)
+	return w.n3reg[n3Key(id.ScriptHash(), sha256.Sum256(b), slices.Concat(sg.Sign, sg.Key))]
+}
+func (w *tworld) n3Register(issuer user.ID, data, invoc, verif []byte) {
+	if w.n3ok {
+		w.n3reg[n3Key(issuer.ScriptHash(), sha256.Sum256(data), slices.Concat(invoc, verif))] = true
+	}
+}
+func (tChain) InContainerInLastTwoEpochs(cid.ID, []byte) (bool, error) { return false, nil }
+func (c tChain) HasUserInNNS(name string, addr util.Uint160) (bool, error) {
+	return slices.Contains(c.w.nns[name], addr), nil
+}
+
+type tNetmap struct{ w *tworld }
+
+func (tNetmap) GetNetMapByEpoch(uint64) (*netmap.NetMap, error) { return nil, errors.New("unused") }
+func (n tNetmap) Epoch() (uint64, error)                        { return n.w.epoch, nil }
+func (tNetmap) NetMap() (*netmap.NetMap, error)                 { return nil, errors.New("unused") }
+func (tNetmap) ServerInContainer(cid.ID) (bool, error)          { return true, nil }
+func (tNetmap) GetEpochBlock(uint64) (uint32, error)            { return 1, nil }
+func (tNetmap) GetEpochBlockByTime(uint32) (uint32, error)      { return 1, nil }
+
+type tCnrs struct{ w *tworld }
+
+func (c tCnrs) Get(id cid.ID) (container.Container, error) {
+	if cn, ok := c.w.cnrs[id]; ok {
+		return cn, nil
+	}
+	return container.Container{}, apistatus.ErrContainerNotFound
+}
+
+type tIR struct{}
+
+func (tIR) InnerRingKeys() [][]byte { return nil }
+
+// ---- indexers (per case) -----------------------------------------------------------------------
+
+type tuniverse struct {
+	actors []*actor // 1..5
+	cnrs   []cid.ID // known containers
+	oids   []oid.ID
+	names  []string
+}
+
+type indexer struct {
+	u     *tuniverse
+	users map[user.ID]int
+	keys  map[string]int
+	oids  map[oid.ID]int
+	cids  map[cid.ID]int
+	names map[string]int
+	ku    map[int]int
+}
+
+func newIndexer(u *tuniverse, extraCids []cid.ID) *indexer {
+	x := &indexer{u: u, users: map[user.ID]int{}, keys: map[string]int{}, oids: map[oid.ID]int{}, cids: map[cid.ID]int{}, names: map[string]int{}, ku: map[int]int{}}
+	for i := 1; i < len(u.actors); i++ {
+		x.users[u.actors[i].id] = i
+		x.keys[string(u.actors[i].pub)] = i
+	}
+	for i, o := range u.oids {
+		x.oids[o] = i + 1
+	}
+	for i, n := range u.names {
+		x.names[n] = i + 1
+	}
+	// containers are numbered by the byte order of their IDs (the v2 validation compares them)
+	all := slices.Clone(u.cnrs)
+	for _, c := range extraCids {
+		if !c.IsZero() && !slices.Contains(all, c) {
+			all = append(all, c)
+		}
+	}
+	sort.Slice(all, func(i, j int) bool { return bytes.Compare(all[i][:], all[j][:]) < 0 })
+	for i, c := range all {
+		x.cids[c] = i + 1
+	}
+	return x
+}
+
+func (x *indexer) user(id user.ID) int {
+	if id.IsZero() {
+		return 0
+	}
+	if i, ok := x.users[id]; ok {
+		return i
+	}
+	i := 50 + len(x.users)
+	x.users[id] = i
+	return i
+}
+func (x *indexer) userMsg(m *refs.OwnerID) int {
+	if m == nil {
+		return 0
+	}
+	var id user.ID
+	if id.FromProtoMessage(m) != nil {
+		return 0
+	}
+	return x.user(id)
+}
+func (x *indexer) key(b []byte) int {
+	if i, ok := x.keys[string(b)]; ok {
+		x.noteKU(i, b)
+		return i
+	}
+	i := 50 + len(x.keys)
+	x.keys[string(b)] = i
+	x.noteKU(i, b)
+	return i
+}
+func (x *indexer) noteKU(i int, b []byte) {
+	if len(b) > 0 && b[0] == 0 {
+		return
+	}
+	if pk, err := keys.NewPublicKeyFromBytes(b, elliptic.P256()); err == nil {
+		x.ku[i] = x.user(user.NewFromECDSAPublicKey(ecdsa.PublicKey(*pk)))
+	}
+}
+func (x *indexer) cid(m *refs.ContainerID) int {
+	if m == nil {
+		return 0
+	}
+	var c cid.ID
+	copy(c[:], m.Value)
+	if len(m.Value) != 32 || c.IsZero() {
+		return 0
+	}
+	return x.cids[c]
+}
+func (x *indexer) oid(m *refs.ObjectID) int {
+	if m == nil || len(m.Value) != 32 {
+		return 0
+	}
+	var o oid.ID
+	copy(o[:], m.Value)
+	if o.IsZero() {
+		return 0
+	}
+	if i, ok := x.oids[o]; ok {
+		return i
+	}
+	i := 50 + len(x.oids)
+	x.oids[o] = i
+	return i
+}
+func (x *indexer) kuList() [][2]int {
+	r := [][2]int{}
+	for k, v := range x.ku {
+		r = append(r, [2]int{k, v})
+	}
+	sort.Slice(r, func(i, j int) bool { return r[i][0] < r[j][0] })
+	return r
+}
+func (x *indexer) sig(m *refs.Signature) *sigF {
+	if m == nil {
+		return nil
+	}
+	return &sigF{Scheme: uint32(m.Scheme), Key: x.key(m.Key)}
+}
+
+func sigVerifies(m *refs.Signature, body interface {
+	MarshaledSize() int
+	MarshalStable([]byte)
+}) bool {
+	if m == nil || m.Scheme < 0 || m.Scheme > 2 {
+		return false
+	}
+	b := make([]byte, body.MarshaledSize())
+	body.MarshalStable(b)
+	return neofscrypto.NewSignatureFromRawKey(neofscrypto.Scheme(m.Scheme), m.Key, m.Sign).Verify(b)
+}
+
+func resClass(err error) int {
+	switch {
+	case err == nil:
+		return 0
+	case errors.Is(err, apistatus.ErrSessionTokenExpired):
+		return 1
+	default:
+		return 2
+	}
+}
+
+func cidsOfMessage(m proto.Message) []cid.ID {
+	// all 32-byte container IDs mentioned anywhere in the token
+	var res []cid.ID
+	var walkV2 func(t *protosession.SessionTokenV2)
+	walkV2 = func(t *protosession.SessionTokenV2) {
+		if t == nil {
+			return
+		}
+		for _, c := range t.GetBody().GetContexts() {
+			if c.GetContainer() != nil && len(c.Container.Value) == 32 {
+				var x cid.ID
+				copy(x[:], c.Container.Value)
+				res = append(res, x)
+			}
+		}
+		walkV2(t.Origin)
+	}
+	switch t := m.(type) {
+	case *protosession.SessionToken:
+		if c := t.GetBody().GetObject().GetTarget().GetContainer(); c != nil && len(c.Value) == 32 {
+			var x cid.ID
+			copy(x[:], c.Value)
+			res = append(res, x)
+		}
+	case *protosession.SessionTokenV2:
+		walkV2(t)
+	case *protoacl.BearerToken:
+		if c := t.GetBody().GetEaclTable().GetContainerId(); c != nil && len(c.Value) == 32 {
+			var x cid.ID
+			copy(x[:], c.Value)
+			res = append(res, x)
+		}
+	}
+	return res
+}
+
+func flipByte[M interface {
+	proto.Message
+	MarshaledSize() int
+	MarshalStable([]byte)
+}](g *rng, m M, fresh M) bool {
+	b := make([]byte, m.MarshaledSize())
+	m.MarshalStable(b)
+	if len(b) == 0 {
+		return false
+	}
+	b[g.n(len(b))] ^= 1 << uint(g.n(8))
+	return proto.Unmarshal(b, fresh) == nil
+}
+
+var schemeSigners = []func(*actor) neofscrypto.Signer{
+	func(a *actor) neofscrypto.Signer { return neofsecdsa.Signer(a.key) },
+	func(a *actor) neofscrypto.Signer { return neofsecdsa.SignerRFC6979(a.key) },
+	func(a *actor) neofscrypto.Signer { return neofsecdsa.SignerWalletConnect(a.key) },
+}
+
+func n3Witness(g *rng) (invoc, verif []byte, issuer user.ID) {
+	verif = []byte{0x0c, 0x21, byte(g.n(256)), byte(g.n(256)), 0x41}
+	invoc = []byte{0x0c, 0x40, byte(g.n(256))}
+	return invoc, verif, user.NewFromScriptHash(hash.Hash160(verif))
+}
+
+// ---- v1 -------------------------------------------------------------------------------------
+
+func (x *indexer) v1Facts(w *tworld, m *protosession.SessionToken) (tok1F, bool, bool, bool) {
+	var t session.Object
+	wf := t.FromProtoMessage(m) == nil
+	var f tok1F
+	f.Objs = []int{}
+	b := m.GetBody()
+	f.Issuer = x.userMsg(b.GetOwnerId())
+	f.Life = lifeF{b.GetLifetime().GetIat(), b.GetLifetime().GetNbf(), b.GetLifetime().GetExp()}
+	if len(b.GetSessionKey()) > 0 {
+		f.AuthKey = x.key(b.GetSessionKey())
+	}
+	oc := b.GetObject()
+	if oc.GetVerb() >= 0 {
+		f.Verb = uint32(oc.GetVerb())
+	}
+	f.Cnr = x.cid(oc.GetTarget().GetContainer())
+	for _, o := range oc.GetTarget().GetObjects() {
+		f.Objs = append(f.Objs, x.oid(o))
+	}
+	f.Sig = x.sig(m.Signature)
+	sigok, n3 := false, false
+	if b != nil {
+		sigok = sigVerifies(m.Signature, b)
+		n3 = w.n3Fact(b.GetOwnerId(), m.Signature, b)
+	}
+	return f, wf, sigok, n3
+}
+
+type v1Req struct {
+	verb session.ObjectVerb
+	cnr  cid.ID
+	obj  oid.ID
+}
+
+func genV1(g *rng, w *tworld, u *tuniverse, epoch uint64, rq v1Req, good bool) (*protosession.SessionToken, bool) {
+	var t session.Object
+	t.SetID(uuid.New())
+	t.SetAuthKey((*neofsecdsa.PublicKey)(&pick(g, u.actors[1:]).key.PublicKey))
+	span := func() uint64 { return epoch - 2 + uint64(g.n(5)) }
+	if good {
+		t.SetIat(epoch - uint64(g.n(3)))
+		t.SetNbf(epoch - uint64(g.n(3)))
+		t.SetExp(epoch + uint64(g.n(3)))
+		t.BindContainer(rq.cnr)
+		switch g.n(3) {
+		case 0:
+		case 1:
+			t.LimitByObjects(rq.obj)
+		default:
+			t.LimitByObjects(pick(g, u.oids), rq.obj)
+		}
+		v := rq.verb
+		switch rq.verb {
+		case session.VerbObjectHead:
+			v = pick(g, []session.ObjectVerb{session.VerbObjectHead, session.VerbObjectGet, session.VerbObjectDelete, session.VerbObjectRange})
+		case session.VerbObjectSearch:
+			v = pick(g, []session.ObjectVerb{session.VerbObjectSearch, session.VerbObjectDelete})
+		}
+		t.ForVerb(v)
+	} else {
+		t.SetIat(span())
+		t.SetNbf(span())
+		t.SetExp(span())
+		t.BindContainer(pick(g, u.cnrs))
+		for k := g.n(3); k > 0; k-- {
+			t.LimitByObjects(pick(g, u.oids))
+		}
+		t.ForVerb(session.ObjectVerb(1 + g.n(7)))
+	}
+	n3 := g.p(12)
+	if n3 {
+		inv, ver, iss := n3Witness(g)
+		t.SetIssuer(iss)
+		t.AttachSignature(neofscrypto.NewN3Signature(inv, ver))
+		w.n3Register(iss, t.SignedData(), inv, ver)
+	} else {
+		a := pick(g, u.actors[1:])
+		t.SetIssuer(a.id)
+		if err := t.SetSignature(schemeSigners[g.n(3)](a)); err != nil {
+			panic(err)
+		}
+	}
+	return t.ProtoMessage(), n3
+}
+
+var v1Muts = []string{"exp", "nbf", "iat", "verb", "cnr", "objs", "issuer", "authkey", "id", "scheme", "sigkey", "sigval", "nosig", "byte", "nolife", "nobody"}
+
+func mutateV1(g *rng, u *tuniverse, m *protosession.SessionToken, how string) *protosession.SessionToken {
+	b := m.Body
+	switch how {
+	case "exp":
+		b.Lifetime.Exp += 1 + uint64(g.n(2))
+	case "nbf":
+		if b.Lifetime.Nbf > 0 {
+			b.Lifetime.Nbf--
+		} else {
+			b.Lifetime.Nbf++
+		}
+	case "iat":
+		if b.Lifetime.Iat > 0 {
+			b.Lifetime.Iat--
+		} else {
+			b.Lifetime.Iat++
+		}
+	case "verb":
+		oc := b.GetObject()
+		oc.Verb = protosession.ObjectSessionContext_Verb(1 + (int(oc.Verb)+g.n(6))%7)
+	case "cnr":
+		oc := b.GetObject()
+		for _, c := range u.cnrs {
+			if !bytes.Equal(c[:], oc.Target.Container.GetValue()) {
+				oc.Target.Container = c.ProtoMessage()
+				break
+			}
+		}
+	case "objs":
+		oc := b.GetObject()
+		if len(oc.Target.Objects) > 0 && g.p(50) {
+			oc.Target.Objects = oc.Target.Objects[1:]
+			if len(oc.Target.Objects) == 0 {
+				oc.Target.Objects = nil
+			}
+		} else {
+			oc.Target.Objects = append(oc.Target.Objects, oidtest.ID().ProtoMessage())
+		}
+	case "issuer":
+		for _, a := range u.actors[1:] {
+			if !bytes.Equal(a.id[:], b.OwnerId.GetValue()) {
+				b.OwnerId = a.id.ProtoMessage()
+				break
+			}
+		}
+	case "authkey":
+		b.SessionKey = slices.Clone(b.SessionKey)
+		b.SessionKey[len(b.SessionKey)-1] ^= 1
+	case "id":
+		b.Id = slices.Clone(b.Id)
+		b.Id[0] ^= 1
+	case "scheme":
+		if m.Signature != nil {
+			m.Signature.Scheme = refs.SignatureScheme((int(m.Signature.Scheme) + 1 + g.n(3)) % 5)
+		}
+	case "sigkey":
+		if m.Signature != nil {
+			for _, a := range u.actors[1:] {
+				if !bytes.Equal(a.pub, m.Signature.Key) {
+					m.Signature.Key = slices.Clone(a.pub)
+					break
+				}
+			}
+		}
+	case "sigval":
+		if m.Signature != nil && len(m.Signature.Sign) > 0 {
+			m.Signature.Sign = slices.Clone(m.Signature.Sign)
+			m.Signature.Sign[g.n(len(m.Signature.Sign))] ^= 1 << uint(g.n(8))
+		}
+	case "nosig":
+		m.Signature = nil
+	case "nolife":
+		b.Lifetime = nil
+	case "nobody":
+		m.Body = nil
+	case "byte":
+		fresh := new(protosession.SessionToken)
+		if flipByte(g, m, fresh) {
+			return fresh
+		}
+		return nil
+	}
+	return m
+}
+
+// ---- bearer ----------------------------------------------------------------------------------
+
+func (x *indexer) bFacts(w *tworld, m *protoacl.BearerToken) (btokF, bool, bool, bool) {
+	var t bearer.Token
+	wf := t.FromProtoMessage(m) == nil
+	var f btokF
+	b := m.GetBody()
+	f.Issuer = x.userMsg(b.GetIssuer())
+	f.Life = lifeF{b.GetLifetime().GetIat(), b.GetLifetime().GetNbf(), b.GetLifetime().GetExp()}
+	f.Cid = x.cid(b.GetEaclTable().GetContainerId())
+	f.User = x.userMsg(b.GetOwnerId())
+	f.Sig = x.sig(m.Signature)
+	sigok, n3 := false, false
+	if b != nil {
+		sigok = sigVerifies(m.Signature, b)
+		n3 = w.n3Fact(b.GetIssuer(), m.Signature, b)
+	}
+	return f, wf, sigok, n3
+}
+
+var bMuts = []string{"exp", "nbf", "iat", "cid", "user", "issuer", "table", "scheme", "sigkey", "sigval", "nosig", "byte", "nolife"}
+
+func mutateB(g *rng, u *tuniverse, m *protoacl.BearerToken, how string) *protoacl.BearerToken {
+	b := m.Body
+	switch how {
+	case "exp":
+		b.Lifetime.Exp += 1 + uint64(g.n(2))
+	case "nbf":
+		if b.Lifetime.Nbf > 0 {
+			b.Lifetime.Nbf--
+		} else {
+			b.Lifetime.Nbf++
+		}
+	case "iat":
+		if b.Lifetime.Iat > 0 {
+			b.Lifetime.Iat--
+		} else {
+			b.Lifetime.Iat++
+		}
+	case "cid":
+		if b.EaclTable.ContainerId == nil {
+			b.EaclTable.ContainerId = u.cnrs[0].ProtoMessage()
+		} else {
+			b.EaclTable.ContainerId = nil
+		}
+	case "user":
+		if b.OwnerId == nil {
+			b.OwnerId = u.actors[2].id.ProtoMessage()
+		} else {
+			b.OwnerId = nil
+		}
+	case "issuer":
+		for _, a := range u.actors[1:] {
+			if !bytes.Equal(a.id[:], b.Issuer.GetValue()) {
+				b.Issuer = a.id.ProtoMessage()
+				break
+			}
+		}
+	case "table":
+		b.EaclTable.Records = append(b.EaclTable.Records, &protoacl.EACLRecord{Operation: protoacl.Operation_GET, Action: protoacl.Action_ALLOW})
+	case "scheme":
+		if m.Signature != nil {
+			m.Signature.Scheme = refs.SignatureScheme((int(m.Signature.Scheme) + 1 + g.n(3)) % 5)
+		}
+	case "sigkey":
+		if m.Signature != nil {
+			for _, a := range u.actors[1:] {
+				if !bytes.Equal(a.pub, m.Signature.Key) {
+					m.Signature.Key = slices.Clone(a.pub)
+					break
+				}
+			}
+		}
+	case "sigval":
+		if m.Signature != nil && len(m.Signature.Sign) > 0 {
+			m.Signature.Sign = slices.Clone(m.Signature.Sign)
+			m.Signature.Sign[g.n(len(m.Signature.Sign))] ^= 1 << uint(g.n(8))
+		}
+	case "nosig":
+		m.Signature = nil
+	case "nolife":
+		b.Lifetime = nil
+	case "byte":
+		fresh := new(protoacl.BearerToken)
+		if flipByte(g, m, fresh) {
+			return fresh
+		}
+		return nil
+	}
+	return m
+}
+
+// ---- v2 ----------------------------------------------------------------------------------------
+
+func (x *indexer) v2Facts(w *tworld, m *protosession.SessionTokenV2) ([]tok2F, bool, []bool, []bool) {
+	var t sessionv2.Token
+	wf := t.FromProtoMessage(m) == nil
+	var res []tok2F
+	var oks, n3s []bool
+	for cur := m; cur != nil && len(res) < 12; cur = cur.Origin {
+		b := cur.GetBody()
+		f := tok2F{Version: b.GetVersion(), AppLen: len(b.GetAppdata()), Issuer: x.userMsg(b.GetIssuer()), Final: b.GetFinal(), Subjs: []subjF2{}, Ctxs: []ctxF{}}
+		for _, s := range b.GetSubjects() {
+			switch id := s.GetIdentifier().(type) {
+			case *protosession.Target_OwnerId:
+				f.Subjs = append(f.Subjs, subjF2{"u", x.userMsg(id.OwnerId)})
+			case *protosession.Target_NnsName:
+				i, ok := x.names[id.NnsName]
+				if !ok {
+					i = 50
+				}
+				f.Subjs = append(f.Subjs, subjF2{"n", i})
+			default:
+				f.Subjs = append(f.Subjs, subjF2{"z", 0})
+			}
+		}
+		f.Life = lifeF{b.GetLifetime().GetIat(), b.GetLifetime().GetNbf(), b.GetLifetime().GetExp()}
+		for _, c := range b.GetContexts() {
+			cf := ctxF{Cnr: x.cid(c.GetContainer()), Verbs: []uint32{}}
+			for _, v := range c.GetVerbs() {
+				if v >= 0 {
+					cf.Verbs = append(cf.Verbs, uint32(v))
+				}
+			}
+			f.Ctxs = append(f.Ctxs, cf)
+		}
+		f.Sig = x.sig(cur.Signature)
+		ok, n3 := false, false
+		if b != nil {
+			ok = sigVerifies(cur.Signature, b)
+			n3 = w.n3Fact(b.GetIssuer(), cur.Signature, b)
+		}
+		res = append(res, f)
+		oks = append(oks, ok)
+		n3s = append(n3s, n3)
+	}
+	return res, wf, oks, n3s
+}
+
+type v2Req struct {
+	verb sessionv2.Verb
+	cnr  cid.ID
+}
+
+func sortedVerbs(g *rng, must sessionv2.Verb, pool int) []sessionv2.Verb {
+	set := map[sessionv2.Verb]bool{}
+	if must != 0 {
+		set[must] = true
+	}
+	for k := g.n(4); k > 0; k-- {
+		set[sessionv2.Verb(1+g.n(pool))] = true
+	}
+	if len(set) == 0 {
+		set[sessionv2.Verb(1+g.n(pool))] = true
+	}
+	var r []sessionv2.Verb
+	for v := range set {
+		r = append(r, v)
+	}
+	slices.Sort(r)
+	return r
+}
+
+// genV2 builds a delegation chain (root first in `layers`), valid for the request when good.
+func genV2(g *rng, w *tworld, u *tuniverse, now uint64, rq v2Req, good bool, depth int, dev string) *protosession.SessionTokenV2 {
+	type lay struct {
+		tok    sessionv2.Token
+		issuer *actor
+	}
+	sortedCnrs := slices.Clone(u.cnrs)
+	sort.Slice(sortedCnrs, func(i, j int) bool { return bytes.Compare(sortedCnrs[i][:], sortedCnrs[j][:]) < 0 })
+	var prev *sessionv2.Token
+	issuer := pick(g, u.actors[1:])
+	iat, nbf, exp := now-10-uint64(g.n(5)), now-5-uint64(g.n(5)), now+5+uint64(g.n(5))
+	if !good {
+		iat, nbf, exp = now-2+uint64(g.n(5)), now-2+uint64(g.n(5)), now-2+uint64(g.n(5))
+	}
+	var prevCtxs []sessionv2.Context
+	devLayer := g.n(depth)
+	for d := 0; d < depth; d++ {
+		var t sessionv2.Token
+		next := pick(g, u.actors[1:])
+		subs := []sessionv2.Target{sessionv2.NewTargetUser(next.id)}
+		viaNNS := g.p(15)
+		if viaNNS {
+			subs = []sessionv2.Target{sessionv2.NewTargetNamed(u.names[0])} // the world maps n1 -> every actor's next issuer below
+		}
+		if g.p(30) {
+			subs = append(subs, sessionv2.NewTargetUser(pick(g, u.actors[1:]).id))
+		}
+		_ = t.SetSubjects(subs)
+		var ctxs []sessionv2.Context
+		if d == 0 {
+			// root contexts
+			if g.p(40) {
+				c, _ := sessionv2.NewContext(cid.ID{}, sortedVerbs(g, rq.verb, 7))
+				ctxs = append(ctxs, c)
+			}
+			for _, cn := range sortedCnrs {
+				if cn == rq.cnr || g.p(40) {
+					must := sessionv2.Verb(0)
+					if cn == rq.cnr && (len(ctxs) == 0 || g.p(50)) {
+						must = rq.verb
+					}
+					c, _ := sessionv2.NewContext(cn, sortedVerbs(g, must, 12))
+					ctxs = append(ctxs, c)
+				}
+			}
+			if !good && g.p(50) {
+				// drop what authorizes the request
+				ctxs = ctxs[:0]
+				c, _ := sessionv2.NewContext(pick(g, sortedCnrs), sortedVerbs(g, 0, 12))
+				ctxs = append(ctxs, c)
+			}
+		} else {
+			// delegated: subset of the origin's contexts
+			for _, pc := range prevCtxs {
+				vs := slices.Clone(pc.Verbs())
+				if g.p(30) && len(vs) > 1 {
+					k := g.n(len(vs))
+					if vs[k] != rq.verb {
+						vs = append(vs[:k], vs[k+1:]...)
+					}
+				}
+				c, _ := sessionv2.NewContext(pc.Container(), vs)
+				if pc.Container().IsZero() && g.p(30) {
+					// narrow a wildcard grant to the requested container
+					c, _ = sessionv2.NewContext(rq.cnr, vs)
+					if slices.ContainsFunc(prevCtxs, func(o sessionv2.Context) bool { return o.Container() == rq.cnr }) {
+						continue
+					}
+				}
+				ctxs = append(ctxs, c)
+			}
+			sort.SliceStable(ctxs, func(i, j int) bool {
+				a, b := ctxs[i].Container(), ctxs[j].Container()
+				return bytes.Compare(a[:], b[:]) < 0
+			})
+			iat, nbf, exp = iat+uint64(g.n(2)), nbf+uint64(g.n(2)), exp-uint64(g.n(2))
+		}
+		// deviations breaking exactly one rule at one layer
+		if dev != "" && d == devLayer {
+			switch dev {
+			case "verbs_unsorted":
+				if len(ctxs) > 0 && len(ctxs[0].Verbs()) > 1 {
+					vs := slices.Clone(ctxs[0].Verbs())
+					vs[0], vs[1] = vs[1], vs[0]
+					ctxs[0], _ = sessionv2.NewContext(ctxs[0].Container(), vs)
+				}
+			case "ctx_dup":
+				if len(ctxs) > 0 {
+					ctxs = append(ctxs, ctxs[len(ctxs)-1])
+				}
+			case "extra_verb":
+				if d > 0 && len(ctxs) > 0 {
+					vs := slices.Clone(ctxs[0].Verbs())
+					for v := sessionv2.Verb(1); v <= 12; v++ {
+						if !slices.Contains(vs, v) {
+							vs = append(vs, v)
+							break
+						}
+					}
+					slices.Sort(vs)
+					ctxs[0], _ = sessionv2.NewContext(ctxs[0].Container(), vs)
+				}
+			case "life_outside":
+				if d > 0 {
+					if g.p(50) {
+						exp += 3
+					} else {
+						nbf -= 3
+					}
+				}
+			case "version":
+				t.SetVersion(1)
+			case "final":
+				t.SetFinal(true)
+			case "nbf_after_exp":
+				nbf = exp + 1
+			case "appdata":
+				_ = t.SetAppData(make([]byte, 1024+g.n(2)))
+			case "many_verbs":
+				if len(ctxs) > 0 {
+					var vs []sessionv2.Verb
+					for v := sessionv2.Verb(1); v <= sessionv2.Verb(12+g.n(2)); v++ {
+						vs = append(vs, v)
+					}
+					m := ctxs[0].Container()
+					ctxs[0] = sessionv2.Context{}
+					pm := &protosession.SessionContextV2{}
+					if !m.IsZero() {
+						pm.Container = m.ProtoMessage()
+					}
+					_ = pm
+					c2, err := sessionv2.NewContext(m, vs[:min(len(vs), 12)])
+					if err == nil {
+						ctxs[0] = c2
+					}
+				}
+			}
+		}
+		_ = t.SetContexts(ctxs)
+		t.SetIat(time.Unix(int64(iat), 0))
+		t.SetNbf(time.Unix(int64(nbf), 0))
+		t.SetExp(time.Unix(int64(exp), 0))
+		if prev != nil {
+			t.SetOrigin(prev)
+		}
+		if dev == "wrong_issuer" && d == devLayer && d > 0 {
+			for _, a := range u.actors[1:] {
+				if a != issuer {
+					issuer = a
+					break
+				}
+			}
+		}
+		if g.p(10) && d == 0 {
+			inv, ver, iss := n3Witness(g)
+			t.SetIssuer(iss)
+			t.AttachSignature(neofscrypto.NewN3Signature(inv, ver))
+			w.n3Register(iss, t.SignedData(), inv, ver)
+		} else {
+			t.SetIssuer(issuer.id)
+			var sg neofscrypto.Signature
+			if err := sg.Calculate(schemeSigners[g.n(3)](issuer), t.SignedData()); err != nil {
+				panic(err)
+			}
+			t.AttachSignature(sg)
+		}
+		cp := new(sessionv2.Token)
+		t.CopyTo(cp)
+		prev = cp
+		prevCtxs = ctxs
+		issuer = next
+	}
+	return prev.ProtoMessage()
+}
+
+var v2Muts = []string{"exp", "nbf", "iat", "verbs", "ctx_cnr", "subjects", "issuer", "final", "appdata", "version", "scheme", "sigkey", "sigval", "nosig", "drop_origin", "byte"}
+
+func nthLayer(m *protosession.SessionTokenV2, i int) *protosession.SessionTokenV2 {
+	for ; i > 0 && m.Origin != nil; i-- {
+		m = m.Origin
+	}
+	return m
+}
+
+func mutateV2(g *rng, u *tuniverse, m *protosession.SessionTokenV2, how string) *protosession.SessionTokenV2 {
+	depth := 1
+	for c := m; c.Origin != nil; c = c.Origin {
+		depth++
+	}
+	l := nthLayer(m, g.n(depth))
+	b := l.Body
+	switch how {
+	case "exp":
+		b.Lifetime.Exp++
+	case "nbf":
+		b.Lifetime.Nbf--
+	case "iat":
+		b.Lifetime.Iat--
+	case "verbs":
+		c := b.Contexts[g.n(len(b.Contexts))]
+		if len(c.Verbs) > 1 && g.p(50) {
+			c.Verbs = c.Verbs[:len(c.Verbs)-1]
+		} else {
+			c.Verbs = append(slices.Clone(c.Verbs), c.Verbs[len(c.Verbs)-1]+1)
+		}
+	case "ctx_cnr":
+		c := b.Contexts[g.n(len(b.Contexts))]
+		if c.Container == nil {
+			c.Container = u.cnrs[0].ProtoMessage()
+		} else {
+			c.Container = nil
+		}
+	case "subjects":
+		b.Subjects = append(slices.Clone(b.Subjects), &protosession.Target{Identifier: &protosession.Target_OwnerId{OwnerId: u.actors[5].id.ProtoMessage()}})
+	case "issuer":
+		for _, a := range u.actors[1:] {
+			if !bytes.Equal(a.id[:], b.Issuer.GetValue()) {
+				b.Issuer = a.id.ProtoMessage()
+				break
+			}
+		}
+	case "final":
+		b.Final = !b.Final
+	case "appdata":
+		b.Appdata = append(slices.Clone(b.Appdata), 1)
+	case "version":
+		b.Version++
+	case "scheme":
+		if l.Signature != nil {
+			l.Signature.Scheme = refs.SignatureScheme((int(l.Signature.Scheme) + 1 + g.n(3)) % 5)
+		}
+	case "sigkey":
+		if l.Signature != nil {
+			for _, a := range u.actors[1:] {
+				if !bytes.Equal(a.pub, l.Signature.Key) {
+					l.Signature.Key = slices.Clone(a.pub)
+					break
+				}
+			}
+		}
+	case "sigval":
+		if l.Signature != nil && len(l.Signature.Sign) > 0 {
+			l.Signature.Sign = slices.Clone(l.Signature.Sign)
+			l.Signature.Sign[g.n(len(l.Signature.Sign))] ^= 1 << uint(g.n(8))
+		}
+	case "nosig":
+		l.Signature = nil
+	case "drop_origin":
+		l.Origin = nil
+	case "byte":
+		fresh := new(protosession.SessionTokenV2)
+		if flipByte(g, m, fresh) {
+			return fresh
+		}
+		return nil
+	}
+	return m
+}
+
+// ---- driver -----------------------------------------------------------------------------------------
+
+func tokensMain(args []string) {
+	if len(args) > 0 && args[0] == "consts" {
+		tokConsts()
+		return
+	}
+	n := 800
+	if thorough() {
+		n = 12000
+	}
+	if len(args) > 0 {
+		n, _ = strconv.Atoi(args[0])
+	}
+	g := &rng{s: seed()*0x1000193 + 30}
+	u := &tuniverse{actors: make([]*actor, 6), names: []string{"n1", "n2"}}
+	for i := 1; i <= 5; i++ {
+		u.actors[i] = newActor(i)
+	}
+	u.cnrs = []cid.ID{cidtest.ID(), cidtest.ID()}
+	u.oids = []oid.ID{oidtest.ID(), oidtest.ID(), oidtest.ID()}
+	w := &tworld{epoch: 10, nns: map[string][]util.Uint160{}, cnrs: map[cid.ID]container.Container{}, n3reg: map[string]bool{}}
+	clk := &clock{t: time.Unix(1_700_000_000, 0)}
+	cache := isessions.NewObjectSessionsCache(1000)
+	svc := aclsvc.New(tChain{w}, cache, aclsvc.WithContainerSource(tCnrs{w}), aclsvc.WithNetmapper(tNetmap{w}),
+		aclsvc.WithIRFetcher(tIR{}), aclsvc.WithTimeProvider(clk), aclsvc.WithLogger(zap.NewNop()))
+	reset := func() { cache.ResetCache(); svc.ResetTokenCheckCache() }
+	enc := json.NewEncoder(os.Stdout)
+	ctx := context.Background()
+
+	setNNS := func(c *tokCase, x *indexer) {
+		// n1 contains two random actors, n2 one
+		w.nns = map[string][]util.Uint160{}
+		c.NNS = [][2]int{}
+		for ni, name := range u.names {
+			for k := 2 - ni; k > 0; k-- {
+				a := pick(g, u.actors[1:])
+				w.nns[name] = append(w.nns[name], a.id.ScriptHash())
+				c.NNS = append(c.NNS, [2]int{ni + 1, a.idx})
+			}
+		}
+	}
+
+	for i := 0; i < n; i++ {
+		w.epoch = 8 + uint64(g.n(5))
+		w.n3ok = g.p(60)
+		w.n3reg = map[string]bool{}
+		reset() // as the node does on a new-epoch event; NOT repeated between a token and its mutation
+		now := uint64(1_700_000_000 + g.n(1000))
+		clk.t = time.Unix(int64(now), int64(g.n(400))*1e6) // < 0.5 s: rounds down to `now`
+		good := g.p(65)
+		mut := ""
+		switch i % 3 {
+		case 0: // ---- v1
+			rq := v1Req{verb: session.ObjectVerb(1 + g.n(7)), cnr: pick(g, u.cnrs)}
+			if g.p(75) {
+				rq.obj = pick(g, u.oids)
+			}
+			m, _ := genV1(g, w, u, w.epoch, rq, good)
+			base := false
+			if good {
+				_, err := svc.VerifySessionV1TokenMessage(m, rq.verb, rq.cnr, rq.obj)
+				base = err == nil
+			}
+			if g.p(55) {
+				mut = pick(g, v1Muts)
+				if m = mutateV1(g, u, m, mut); m == nil {
+					continue
+				}
+			}
+			x := newIndexer(u, append(cidsOfMessage(m), rq.cnr))
+			c := tokCase{Kind: "v1", Epoch: w.epoch, Now: now, ReqVerb: uint32(rq.verb), Mut: mut, Base: base && mut != ""}
+			f, wf, ok, n3 := x.v1Facts(w, m)
+			c.V1, c.WF, c.SigOK, c.N3OK = &f, wf, []bool{ok}, []bool{n3}
+			c.ReqCnr = x.cids[rq.cnr]
+			if !rq.obj.IsZero() {
+				c.ReqObj = x.oids[rq.obj]
+			}
+			c.KU, c.NNS = x.kuList(), [][2]int{}
+			_, err := svc.VerifySessionV1TokenMessage(m, rq.verb, rq.cnr, rq.obj)
+			c.Res = resClass(err)
+			_ = enc.Encode(c)
+		case 1: // ---- bearer
+			owner := pick(g, u.actors[1:4])
+			sender := pick(g, u.actors[1:])
+			reqCnr := u.cnrs[g.n(2)]
+			var cn container.Container
+			cn.SetOwner(owner.id)
+			w.cnrs = map[cid.ID]container.Container{reqCnr: cn}
+			var bt bearer.Token
+			var tb eacl.Table
+			iss := owner
+			span := func() uint64 { return w.epoch - 2 + uint64(g.n(5)) }
+			if good {
+				if g.p(60) {
+					tb.SetCID(reqCnr)
+				}
+				if g.p(60) {
+					bt.ForUser(sender.id)
+				}
+				bt.SetIat(w.epoch - uint64(g.n(3)))
+				bt.SetNbf(w.epoch - uint64(g.n(3)))
+				bt.SetExp(w.epoch + uint64(g.n(3)))
+			} else {
+				if g.p(60) {
+					tb.SetCID(pick(g, u.cnrs))
+				}
+				if g.p(60) {
+					bt.ForUser(pick(g, u.actors[1:]).id)
+				}
+				bt.SetIat(span())
+				bt.SetNbf(span())
+				bt.SetExp(span())
+				if g.p(40) {
+					iss = pick(g, u.actors[1:])
+				}
+			}
+			bt.SetEACLTable(tb)
+			if g.p(10) {
+				inv, ver, id := n3Witness(g)
+				bt.SetIssuer(id)
+				bt.AttachSignature(neofscrypto.NewN3Signature(inv, ver))
+				w.n3Register(id, bt.SignedData(), inv, ver)
+			} else {
+				bt.SetIssuer(iss.id)
+				var sg neofscrypto.Signature
+				if err := sg.Calculate(schemeSigners[g.n(3)](iss), bt.SignedData()); err != nil {
+					panic(err)
+				}
+				bt.AttachSignature(sg)
+			}
+			m := bt.ProtoMessage()
+			hreq := &protoobject.HeadRequest{Body: &protoobject.HeadRequest_Body{Address: oid.NewAddress(reqCnr, u.oids[0]).ProtoMessage()},
+				MetaHeader: &protosession.RequestMetaHeader{Version: version.Current().ProtoMessage(), Ttl: 2}}
+			hreq.VerifyHeader, _ = neofscrypto.SignRequestWithBuffer(neofsecdsa.Signer(sender.key), hreq, nil)
+			run := func(m *protoacl.BearerToken) int {
+				tok, err := svc.VerifyBearerTokenMessage(m)
+				if err != nil {
+					return 2
+				}
+				_, err = svc.HeadRequestToInfo(ctx, hreq, reqCnr, common.RequestTokens{Bearer: &tok})
+				if err != nil {
+					return 2
+				}
+				return 0
+			}
+			base := good && run(m) == 0
+			if g.p(55) {
+				mut = pick(g, bMuts)
+				if m = mutateB(g, u, m, mut); m == nil {
+					continue
+				}
+			}
+			x := newIndexer(u, append(cidsOfMessage(m), reqCnr))
+			c := tokCase{Kind: "bearer", Epoch: w.epoch, Now: now, Mut: mut, Base: base && mut != "", Owner: owner.idx, Sender: sender.idx}
+			f, wf, ok, n3 := x.bFacts(w, m)
+			c.B, c.WF, c.SigOK, c.N3OK = &f, wf, []bool{ok}, []bool{n3}
+			c.ReqCnr = x.cids[reqCnr]
+			c.KU, c.NNS = x.kuList(), [][2]int{}
+			c.Res = run(m)
+			_ = enc.Encode(c)
+			if c.Res == 0 {
+				// the same token one epoch after its expiration (cache reset by the epoch tick)
+				w.epoch = f.Life.Exp + 1
+				reset()
+				c.Epoch, c.Mut, c.Base = w.epoch, "", false
+				c.Res = run(m)
+				_ = enc.Encode(c)
+			}
+		default: // ---- v2
+			rq := v2Req{verb: sessionv2.Verb(1 + g.n(7)), cnr: pick(g, u.cnrs)}
+			depth := 1 + g.n(3)
+			if g.p(6) {
+				depth = 5 + g.n(2)
+			}
+			dev := ""
+			if g.p(25) {
+				dev = pick(g, []string{"verbs_unsorted", "ctx_dup", "extra_verb", "life_outside", "version", "final", "nbf_after_exp", "appdata", "wrong_issuer"})
+			}
+			c := tokCase{Kind: "v2", Epoch: w.epoch, Now: now, ReqVerb: uint32(rq.verb)}
+			m := genV2(g, w, u, now, rq, good, depth, dev)
+			// NNS: n1 holds every issuer of the chain with probability, so that NNS subjects resolve
+			x0 := newIndexer(u, nil)
+			setNNS(&c, x0)
+			if g.p(70) {
+				for cur := m; cur != nil; cur = cur.Origin {
+					var id user.ID
+					if id.FromProtoMessage(cur.GetBody().GetIssuer()) == nil {
+						w.nns["n1"] = append(w.nns["n1"], id.ScriptHash())
+						c.NNS = append(c.NNS, [2]int{1, x0.user(id)})
+					}
+				}
+			}
+			base := false
+			if good && dev == "" {
+				_, err := svc.VerifySessionTokenMessage(m, rq.verb, rq.cnr)
+				base = err == nil
+			}
+			if g.p(50) {
+				mut = pick(g, v2Muts)
+				if m = mutateV2(g, u, m, mut); m == nil {
+					continue
+				}
+			}
+			x := newIndexer(u, append(cidsOfMessage(m), rq.cnr))
+			// keep the user numbering of the NNS facts
+			for id, i := range x0.users {
+				x.users[id] = i
+			}
+			c.Mut, c.Base = mut, base && mut != ""
+			fs, wf, oks, n3s := x.v2Facts(w, m)
+			c.V2, c.WF, c.SigOK, c.N3OK = fs, wf, oks, n3s
+			c.ReqCnr = x.cids[rq.cnr]
+			c.KU = x.kuList()
+			_, err := svc.VerifySessionTokenMessage(m, rq.verb, rq.cnr)
+			c.Res = resClass(err)
+			_ = enc.Encode(c)
+			if c.Res == 0 && len(fs) > 0 {
+				// the same (now cached) token at its last valid second and one second later
+				for _, t := range []uint64{fs[0].Life.Exp, fs[0].Life.Exp + 1, fs[0].Life.Nbf, fs[0].Life.Nbf - 1} {
+					clk.t = time.Unix(int64(t), 0)
+					c.Now, c.Mut, c.Base = t, "", false
+					_, err := svc.VerifySessionTokenMessage(m, rq.verb, rq.cnr)
+					c.Res = resClass(err)
+					_ = enc.Encode(c)
+				}
+			}
+		}
+	}
+
+	// ---- histories over the v1 result cache: verifications of a few tokens interleaved with epoch
+	// ticks with and without the cache reset the node performs on a new-epoch event
+	nh := n / 40
+	for h := 0; h < nh; h++ {
+		reset()
+		w.epoch = 10
+		w.n3ok = false
+		c := tokCase{Kind: "hist", Epoch: w.epoch, NNS: [][2]int{}, SigOK: []bool{}, N3OK: []bool{}}
+		rq := v1Req{verb: session.VerbObjectGet, cnr: u.cnrs[0], obj: u.oids[0]}
+		type ht struct {
+			m  *protosession.SessionToken
+			id int
+		}
+		var toks []ht
+		for k := 0; k < 3; k++ {
+			var t session.Object
+			t.SetID(uuid.New())
+			t.SetAuthKey((*neofsecdsa.PublicKey)(&u.actors[1].key.PublicKey))
+			t.BindContainer(rq.cnr)
+			t.ForVerb(rq.verb)
+			t.SetIat(9)
+			t.SetNbf(uint64(9 + g.n(4)))
+			t.SetExp(uint64(10 + g.n(4)))
+			a := pick(g, u.actors[1:])
+			t.SetIssuer(a.id)
+			_ = t.SetSignature(schemeSigners[g.n(3)](a))
+			m := t.ProtoMessage()
+			if g.p(20) {
+				m.Signature.Sign[3] ^= 1
+			}
+			toks = append(toks, ht{m, k + 1})
+		}
+		x := newIndexer(u, []cid.ID{rq.cnr})
+		for s := 0; s < 12; s++ {
+			if g.p(30) {
+				ev := histEv{Tick: true, Epoch: w.epoch + uint64(g.n(2)), Reset: g.p(65)}
+				if g.p(10) && w.epoch > 9 {
+					ev.Epoch = w.epoch - 1
+				}
+				w.epoch = ev.Epoch
+				if ev.Reset {
+					reset()
+				}
+				c.Events = append(c.Events, ev)
+				c.Out = append(c.Out, -1)
+				continue
+			}
+			t := pick(g, toks)
+			f, wf, ok, _ := x.v1Facts(w, t.m)
+			ev := histEv{ID: t.id, WF: wf, V1: &f, SigOK: ok, ReqVerb: uint32(rq.verb), ReqCnr: x.cids[rq.cnr], ReqObj: x.oids[rq.obj]}
+			_, err := svc.VerifySessionV1TokenMessage(t.m, rq.verb, rq.cnr, rq.obj)
+			c.Events = append(c.Events, ev)
+			c.Out = append(c.Out, resClass(err))
+		}
+		c.KU = x.kuList()
+		_ = enc.Encode(c)
+	}
+}
+
+func tokConsts() {
+	out := map[string]any{
+		"ecdsa_schemes": []uint64{uint64(neofscrypto.ECDSA_SHA512), uint64(neofscrypto.ECDSA_DETERMINISTIC_SHA256), uint64(neofscrypto.ECDSA_WALLETCONNECT)},
+		"scheme_n3":     uint64(neofscrypto.N3),
+		"verb_put":      uint64(session.VerbObjectPut), "verb_get": uint64(session.VerbObjectGet), "verb_head": uint64(session.VerbObjectHead),
+		"verb_search": uint64(session.VerbObjectSearch), "verb_delete": uint64(session.VerbObjectDelete), "verb_range": uint64(session.VerbObjectRange),
+		"verb_rangehash": uint64(session.VerbObjectRangeHash),
+		"v2_same_verbs": sessionv2.VerbObjectPut == sessionv2.Verb(session.VerbObjectPut) && sessionv2.VerbObjectGet == sessionv2.Verb(session.VerbObjectGet) &&
+			sessionv2.VerbObjectHead == sessionv2.Verb(session.VerbObjectHead) && sessionv2.VerbObjectSearch == sessionv2.Verb(session.VerbObjectSearch) &&
+			sessionv2.VerbObjectDelete == sessionv2.Verb(session.VerbObjectDelete) && sessionv2.VerbObjectRange == sessionv2.Verb(session.VerbObjectRange),
+		"max_subjects": sessionv2.MaxSubjectsPerToken, "max_contexts": sessionv2.MaxContextsPerToken, "max_verbs": sessionv2.MaxVerbsPerContext,
+		"max_depth": sessionv2.MaxDelegationDepth, "max_appdata": sessionv2.MaxAppDataSize,
+	}
+	_ = json.NewEncoder(os.Stdout).Encode(out)
+}
